@@ -465,7 +465,7 @@ func init() {
 // race detector on (the build instruments every field/map access).
 func checkC10(c *vsched.RunCtx) {
 	runPoolDrivers(c, "", true)
-	if c.Replay == nil || c.Replay.Harness == "pairs" {
+	if c.Replay == nil || strings.HasPrefix(c.Replay.Harness, "pairs") {
 		runPairs(c, true)
 	}
 	runStreamRaces(c)
